@@ -60,7 +60,8 @@ theorem ReachableFrom.le {ext : Ext} {fuel : Nat} {w0 w : World} {b1 b : Block} 
   | refl => exact later_refl_blk _
   | step op _ hb ih => exact later_trans_blk ih hb
 
-theorem ReachableAt.extend_reachable {ext : Ext} {fuel : Nat} {w0 w : World} {b1 b : Block} (hr : Reachable ext fuel w0)
+/-- a further history of a reachable world leads to a reachable world -/
+theorem Reachable.extend {ext : Ext} {fuel : Nat} {w0 w : World} {b1 b : Block} (hr : Reachable ext fuel w0)
     (hf : ReachableFrom ext fuel w0 b1 w b) : Reachable ext fuel w := by
   induction hf with
   | refl => exact hr
@@ -100,5 +101,18 @@ theorem reachableAt_inv (P : Block → State → Prop)
   | @step w b op _ hb ih =>
     exact step_state_at ext fuel (P op.blk) w op (fun s g self snd funds m s' out => hstep op.blk s g self snd funds m s' out)
       (hmono _ _ _ hb ih)
+
+/-- In every reachable world (any history, blocks in any order) a proposal stored Open and not expired at a
+block is reported Open at that block. -/
+theorem reachable_openOk {ext : Ext} {fuel : Nat} {w : World} (hr : Reachable ext fuel w) :
+    AllP (fun _ p => ∀ b, OpenOk b p) w.flex.core := by
+  obtain ⟨m, s, g, t, bank, self, ga, ta, h0, ops, hi, rfl⟩ := hr
+  have := run_state_inv ext (fun s => Inv s ∧ AllP (fun _ p => ∀ b, OpenOk b p) s.core)
+    (fun g self blk s snd funds m s' out ⟨hi, ha⟩ he =>
+      ⟨execute_inv hi he, allP_step hi.wf (fun _ _ _ hold hs => openOk_all_step hold hs) ha (execute_coreStep he)⟩)
+    fuel ops (World.init s g t bank self ga ta h0) ⟨instantiate_inv hi, by
+      show AllP _ s.core
+      rw [instantiate_core hi]; exact allP_empty _⟩
+  exact this.2
 
 end CwPlus.Cw3Flex
